@@ -58,7 +58,7 @@ pub fn gen_stream(r: &mut Rng, i: u64, small: bool) -> (String, Vec<u8>) {
             body.extend_from_slice(b"\nOK\n");
         }
         let n = r.range(1100, 3000);
-        let line: &[u8] = *r.pick(&[&b"a: \n"[..], b"a: 1\n", b"file: x\n", b"Artist: ab\n"]);
+        let line: &[u8] = *r.pick(&[&b"a: \n"[..], b"a: 1\n", b"file: x\n", b"Artist: ab\n", b"list_OK\n", b"a: 1\nlist_OK\n"]);
         for _ in 0..n {
             body.extend_from_slice(line);
         }
@@ -342,7 +342,7 @@ impl Property for C02 {
     fn meta(&self, _cfg: &Cfg, _acc: &Acc) -> Meta {
         Meta {
             level: "exploration",
-            rule: "streams: encoder output of random abstract sessions, buffer-edge sessions (length 4096*2^k +-3), mutated, dictionary and random bytes, and (one in 16) 'exact-fill' streams of complete responses whose total length lands on or next to 4096*2^k, after which the peer stays silent (a timeout error instead of EOF: the read that fills the buffer to the brim also completes the last response, and all responses must come out before the silence is noticed); and (one in 16) responses of 1100-3000 very short lines behind a response that made the buffer grow, so that one read carries thousands of lines, ended by EOF or by a silent peer; each stream is run whole on the blocking connection (reference) and then under byte-at-a-time, 8 random k-way (k<=32) and 2-way splits (every split point for streams <=1 KiB, a 512-wide window around each 2^k buffer edge plus random points otherwise) and everything in one read, on both connection flavours (async also with spurious Pending); for every 8th stream additionally the greeting line itself is cut at each of its positions and byte by byte (connect under segmentation), the rest cut at random; a case is a (stream, segmentation, flavour) triple; non-trivial = the stream yields >=1 complete response and the segmentation has >=2 chunks; distinct = by hash of (stream bytes, cut points, flavour)".into(),
+            rule: "streams: encoder output of random abstract sessions, buffer-edge sessions (length 4096*2^k +-3), mutated, dictionary and random bytes, and (one in 16) 'exact-fill' streams of complete responses whose total length lands on or next to 4096*2^k, after which the peer stays silent (a timeout error instead of EOF: the read that fills the buffer to the brim also completes the last response, and all responses must come out before the silence is noticed); and (one in 16) responses of 1100-3000 very short lines (or as many `list_OK` frames) behind a response that made the buffer grow, so that one read carries thousands of lines, ended by EOF or by a silent peer; each stream is run whole on the blocking connection (reference) and then under byte-at-a-time, 8 random k-way (k<=32) and 2-way splits (every split point for streams <=1 KiB, a 512-wide window around each 2^k buffer edge plus random points otherwise) and everything in one read, on both connection flavours (async also with spurious Pending); for every 8th stream additionally the greeting line itself is cut at each of its positions and byte by byte (connect under segmentation), the rest cut at random; a case is a (stream, segmentation, flavour) triple; non-trivial = the stream yields >=1 complete response and the segmentation has >=2 chunks; distinct = by hash of (stream bytes, cut points, flavour)".into(),
             nontrivial_set: "nontrivial",
             assumptions: vec![
                 "the greeting is delivered with a read boundary right after its line feed (connect discards bytes read beyond the greeting; nothing can follow the greeting in a real session before the client has spoken)".into(),
